@@ -1,12 +1,12 @@
 package main
 
 import (
-	"os"
-	"runtime/debug"
 	"fmt"
 	"go/constant"
 	"go/token"
 	"go/types"
+	"os"
+	"runtime/debug"
 	"sort"
 	"strings"
 
@@ -57,7 +57,8 @@ type Engine struct {
 	bgGlobals          map[string]bool
 	tbsCache           map[string]types.Type
 	curReplay          string
-	conjOnly           bool // second attempts: conjunct runs only
+	symbols            map[string][]string     // named locals per function on the pinned tree (symbols.json)
+	conjOnly           bool                    // second attempts: conjunct runs only
 	replayTerms        map[string][]ReplayTerm // function -> named terms to read back from a model
 	bgT, vcT, weT, esT types.Type
 }
